@@ -13,7 +13,7 @@ p=sys.argv[1]; m=json.load(open(p))
 out=sys.argv[2]
 det=[]
 for l in out.splitlines():
-    mm=re.match(r'(DETECTED|MISSED|ERROR) (\S+?):? ?(.*)',l)
+    mm=re.match(r'(DETECTED|MISSED|ERROR) ([A-Z]+[0-9]+):? ?(.*)',l)
     if not mm: continue
     k,i,rest=mm.groups()
     if k=='DETECTED':
